@@ -1051,6 +1051,7 @@ func (t *taskState) setBlocked(disc simnet.Discipline) {
 }
 
 func runHistories(r *core.Run, prop string) {
+	defer installSortedOrder()()
 	c := r.C
 	nTasks := 1 + c.Intn(4)
 	maxOps := 60
